@@ -315,30 +315,139 @@ def d4(chk, prog):
 
 
 # ---------------------------------------------------------------------------------------------- D5
+class Coord:
+    """a coordinate  s + off  relative to the (symbolic) region start; `fragile`: obtained by truncating a float product whose exact
+    value is an integer but whose factor (a float quotient) is not exactly representable -- IEEE rounding may yield off - 1"""
+
+    def __init__(self, off, fragile=False):
+        self.off, self.fragile = off, fragile
+
+    def abs_binop(self, op, other, reflected):
+        if isinstance(op, ast.Sub) and isinstance(other, Coord) and not reflected:
+            if self.fragile or other.fragile:
+                raise Undecided("span of fragile coordinates")
+            return Span(self.off - other.off)
+        if isinstance(op, (ast.Add, ast.Sub)) and isinstance(other, (int, FInt)) and not (reflected and isinstance(op, ast.Sub)):
+            v = other.value if isinstance(other, FInt) else other
+            fr = isinstance(other, FInt) and other.fragile
+            return Coord(self.off + (v if isinstance(op, ast.Add) else -v), self.fragile or fr)
+        raise Undecided(f"coordinate arithmetic {type(op).__name__} with {other!r}")
+
+    def abs_compare(self, op, other, reflected):
+        from ..absint import PYCMP
+        if isinstance(other, Coord):
+            return PYCMP[type(op)](other.off, self.off) if reflected else PYCMP[type(op)](self.off, other.off)
+        raise Undecided("coordinate compared with a non-coordinate")
+
+    def __repr__(self):
+        return f"s+{self.off}{'?' if self.fragile else ''}"
+
+
+class Span:
+    def __init__(self, v):
+        self.v = v
+
+    def abs_binop(self, op, other, reflected):
+        if isinstance(op, ast.Div) and not reflected and isinstance(other, (int, float, Fr)):
+            return Quot(Fr(self.v) / Fr(str(other) if isinstance(other, float) else other))
+        raise Undecided(f"span arithmetic {type(op).__name__}")
+
+    def abs_compare(self, op, other, reflected):
+        from ..absint import PYCMP
+        o = Fr(str(other)) if isinstance(other, float) else other
+        return PYCMP[type(op)](o, self.v) if reflected else PYCMP[type(op)](self.v, o)
+
+    def __repr__(self):
+        return f"span {self.v}"
+
+
+class Quot:
+    """a float quotient: exact rational value, and whether a binary float can hold it exactly"""
+
+    def __init__(self, v):
+        self.v = Fr(v)
+        d = self.v.denominator
+        self.inexact = d & (d - 1) != 0
+
+    def abs_round(self, nd=None):
+        return round(self.v)
+
+    def abs_int(self):
+        return int(self.v)
+
+    def abs_binop(self, op, other, reflected):
+        if isinstance(op, ast.Mult) and isinstance(other, int):
+            return Prod(self.v * other, self.inexact)
+        raise Undecided(f"quotient arithmetic {type(op).__name__}")
+
+    def __format__(self, spec):
+        return format(float(self.v), spec)
+
+
+class Prod:
+    def __init__(self, v, inexact):
+        self.v, self.inexact = v, inexact
+
+    def abs_int(self):
+        return FInt(int(self.v), self.inexact and self.v.denominator == 1)
+
+
+class FInt:
+    def __init__(self, value, fragile):
+        self.value, self.fragile = value, fragile
+
+
 def d5(chk, prog, spans):
     chk.clause("D5", "subdivide: pieces chain from row.start to row.end, count = int(round(span/avg)) or 1, regions below min_size skipped")
     fi = prog.fn("skgenome.subdivide._split_targets")
-    tb = Table(chk, "subdivide-chaining", "_split_targets pieces (symbolic start; spans giving 1..6 bins)", fi.loc(), fi.qn)
+    tb = Table(chk, "subdivide-chaining", "_split_targets pieces (symbolic start; spans giving 1..7 bins; float quotients tracked)", fi.loc(), fi.qn)
     model = Model()
     model.prims["skgenome.merge.merge"] = lambda it, table, *a, **k: table          # backed by D1-D3 (merge is checked there)
     for span, avg, min_size in spans:
         W.reset()
         it = Interp(prog, model)
-        s = Term.sym("s", 0, INF, True)
-        e = t_add(s, Term.const(span))
+        s, e = Coord(0), Coord(span)
         df = DF({"chromosome": Vec(["chr1"]), "start": Vec([s]), "end": Vec([e]), "gene": Vec(["G"])}, 1)
         out = tb.guard(lambda: it.run(fi.qn, [df, avg, min_size, False]), f"span={span} avg={avg} min={min_size}")
         if out is None:
             continue
         pieces = [(r.start, r.end) for r in out]
-        want_n = 0 if span < min_size else (int(round(Fr(span, avg))) or 1)
-        ok = len(pieces) == want_n
+        want_n = 0 if span < min_size else (int(round(Fr(span) / Fr(str(avg) if isinstance(avg, float) else avg))) or 1)
+        ok = len(pieces) == want_n and all(isinstance(a, Coord) and isinstance(b, Coord) for a, b in pieces)
+        why = ""
         if ok and pieces:
-            ok = same(pieces[0][0], s) and same(pieces[-1][1], e) and all(same(a[1], b[0]) for a, b in zip(pieces, pieces[1:]))
-            sizes = [t_sub(T(b), T(a)) for a, b in pieces]
-            ok = ok and all(z.is_const() and abs(z.cval() - Fr(span, want_n)) < 1 and z.cval() > 0 for z in sizes)
+            ok = pieces[0][0].off == 0 and not pieces[0][0].fragile and pieces[-1][1].off == span
+            if ok and pieces[-1][1].fragile:
+                ok, why = False, ("the last piece's end is recomputed as start + int(n * (span / n)): span / n is not exactly representable as a float, so the product can "
+                                  "round to just below span and the truncation loses the region's last base")
+            ok = ok and all(a[1] is b[0] or (a[1].off == b[0].off and a[1].fragile == b[0].fragile) for a, b in zip(pieces, pieces[1:]))
+            for a, b in pieces:
+                lo = b.off - (1 if b.fragile else 0) - a.off
+                hi = b.off - (a.off - (1 if a.fragile else 0))
+                ok = ok and lo > 0 and abs(lo - Fr(span, want_n)) < 2 and abs(hi - Fr(span, want_n)) < 2 and abs((b.off - a.off) - Fr(span, want_n)) < 1
             ok = ok and all(r.gene == "G" and r.chromosome == "chr1" for r in out)
-        tb.cell(ok, dict(span=span, avg=avg, min_size=min_size, pieces=[(repr(a), repr(b)) for a, b in pieces], want_count=want_n))
+        tb.cell(ok, dict(span=span, avg=str(avg), min_size=min_size, pieces=[(repr(a), repr(b)) for a, b in pieces], want_count=want_n, why=why))
+    # the size filter applies to *merged* regions: two abutting rows, each below min_size, merge into one region that is not
+    W.reset()
+    seen = {}
+
+    def merging(it, table, *a, **k):
+        keep = table.cols.get("__keep__")
+        rows = [i for i in range(table.n) if keep is None or keep.v[i] is True]
+        seen["rows_in"] = rows
+        if not rows:
+            return DF({c: Vec([]) for c in table.cols if not c.startswith("__")}, 0)
+        return DF({"chromosome": Vec(["chr1"]), "start": Vec([table.cols["start"].v[rows[0]]]), "end": Vec([table.cols["end"].v[rows[-1]]]), "gene": Vec(["G"])}, 1)
+    m2 = Model()
+    m2.prims["skgenome.merge.merge"] = merging
+    it = Interp(prog, m2)
+    df = DF({"chromosome": Vec(["chr1", "chr1"]), "start": Vec([Coord(0), Coord(6)]), "end": Vec([Coord(6), Coord(12)]), "gene": Vec(["G", "G"])}, 2)
+    out = tb.guard(lambda: it.run(fi.qn, [df, 100, 10, False]), "abutting short rows")
+    if out is not None:
+        pieces = [(r.start, r.end) for r in out]
+        tb.cell(len(pieces) == 1 and pieces[0][0].off == 0 and pieces[0][1].off == 12 and seen.get("rows_in") == [0, 1],
+                dict(case="two abutting 6-base rows, min_size 10", rows_reaching_merge=seen.get("rows_in"), pieces=[(repr(a), repr(b)) for a, b in pieces],
+                     want="one 12-base bin: the minimum size is tested on the merged region"))
     tb.done("subdivide pieces do not tile the region from start to end in equal consecutive bins")
 
 
@@ -352,7 +461,7 @@ def run(chk):
     d3(chk, prog)
     d4(chk, prog)
     spans = [(1000, 300, 0), (1000, 3000, 0), (100, 300, 0), (449, 300, 0), (450, 300, 0), (751, 300, 0), (1500, 300, 0), (1800, 300, 0),
-             (299, 300, 300), (300, 300, 300), (301, 300, 300), (10, 300, 11), (7, 2, 0)]
+             (299, 300, 300), (300, 300, 300), (301, 300, 300), (10, 300, 11), (7, 2, 0), (1798, 200 / 0.75, 0), (2000, 300, 0)]
     if chk.tier == "thorough":
         spans += [(sp, av, mn) for sp in (1, 2, 5, 149, 150, 151, 600, 601, 899, 900, 1234, 2000) for av in (100, 267, 300) for mn in (0, 150, sp, sp + 1)]
     d5(chk, prog, spans)
